@@ -26,6 +26,24 @@ check("C09", "pool-sim", "exploration",
       "mutex/condvar/create/join/yield granularity; data races between sync points are invisible.",
       "deterministic simulation: seeded schedule search with fault injection vs sequential model", "DESIGN.md 5/C09")
 
+check("C12", "tool-sim", "exploration",
+      "Every tool pipeline (gensquashfs pack-file/pack-dir, tar2sqfs plain and gzip/xz/bzip2/zstd input, sqfs2tar plain and compressed, "
+      "rdsquashfs cat/list/describe/xattr/stat/unpack) is run fault-free and then under seeded short counts, EINTR bursts and stdin "
+      "chunking down to 1 byte on read/write/pread/pwrite of every descriptor class, with a seeded thread schedule; outputs and exit "
+      "status must equal the reference. Failing plans are rewritten as explicit faults and delta-debugged.",
+      "Trusted: the --wrap seam sees every read/write/pread/pwrite the project code issues (stdio inside libc is not perturbed); "
+      "inputs come from the seeded generator.",
+      "deterministic simulation: seeded fault injection (short I/O, EINTR, pipe chunking) vs fault-free reference", "DESIGN.md 5/C12")
+
+check("C13", "tool-sim", "fault_enumeration",
+      "For each small pipeline a counting run gives the number of calls per (libc call, descriptor class), project allocations and "
+      "compressor calls; every single position k is then failed once (ENOSPC/EIO/EMFILE, EINTR-then-error, early EOF where the "
+      "length is known, NULL from the k-th allocation, k-th compressor call, k-th pthread_create) in the sanitized build. Oracle: no "
+      "crash/sanitizer report/deadlock/hang; exit!=0 => diagnostic and no output file; exit 0 => output identical to the clean run.",
+      "Single-fault model; classes with more calls than the cap are sampled (first/last 10 + seeded sample) and reported as such; "
+      "allocation faults cover project code only (codec libraries keep the real allocator).",
+      "deterministic simulation: exhaustive single-fault enumeration over intercepted calls and allocations", "DESIGN.md 5/C13")
+
 PENDING = ["C01","C02","C03","C04","C05","C06","C07","C08","C10","C11","C12","C13","C14","C15","C19"]
 NA_REASONS = {
  "C16": "pure relation between two text transducers (describe printer, pack-file tokenizer); no schedule, clock, fault, crash point or history in the statement - deciding it is input enumeration, which deterministic simulation does not do (DESIGN.md section 0)",
@@ -49,6 +67,7 @@ def main():
             "add_only": True,
         },
         "engines": [
+            {"name": "tool-sim", "path": "simos/ + py/pipelines.py", "serves_properties": ["C12", "C13"], "kind_free_text": "each tool's real sources linked with simos under --wrap; one process per simulated run"},
             {"name": "pool-sim", "path": "scn/pool.c", "serves_properties": ["C09"], "kind_free_text": "real threadpool.c under the simos scheduler, many runs per process"},
         ],
         "checks": [CHECKS[k] for k in sorted(CHECKS)],
